@@ -116,34 +116,35 @@ fn offending_class<T>(printed: &str) -> String {
     shape_class(printed)
 }
 
-fn token_strings(alpha: &[&str], maxlen: usize, joiners: &[&str]) -> Vec<String> {
-    let mut out = vec![];
-    let mut cur: Vec<Vec<usize>> = vec![vec![]];
-    for _ in 0..maxlen {
-        let mut next = vec![];
-        for c in &cur {
-            for i in 0..alpha.len() {
-                let mut x = c.clone();
-                x.push(i);
-                next.push(x);
+/// every string of 1..=maxlen tokens over `alpha`, joined by each joiner; streamed (no list is
+/// materialised), in parallel over the index space; returns the number of strings visited
+fn for_each_token_string<F: Fn(&str) + Sync>(alpha: &[&str], maxlen: usize, joiners: &[&str], f: F) -> u64 {
+    let k = alpha.len() as u64;
+    let mut total = 0u64;
+    for len in 1..=maxlen {
+        let n = k.pow(len as u32);
+        total += n * joiners.len() as u64;
+        (0..n).into_par_iter().for_each(|mut idx| {
+            let mut toks: Vec<&str> = Vec::with_capacity(len);
+            for _ in 0..len {
+                toks.push(alpha[(idx % k) as usize]);
+                idx /= k;
             }
-        }
-        for n in &next {
+            toks.reverse();
             for j in joiners {
-                out.push(n.iter().map(|i| alpha[*i]).collect::<Vec<_>>().join(j));
+                f(&toks.join(j));
             }
-        }
-        cur = next;
+        });
     }
-    out
+    total
 }
 
 pub fn run(mode: Mode, run: &Run) {
     let quick = run.quick();
     if mode == Mode::C14 {
-        run.set_rule("(i) every term of T_0..T_2 and depth-3 combinations over a 4-leaf alphabet (fully parenthesised by the generator, so in the image of the parser after one parse), every rule of C01's alphabets, programs of several rules, every head kind, empty bodies, #false heads; (ii) every string of <= 4 (thorough 5) tokens over a 15-token term alphabet and a 16-token rule alphabet, joined with and without blanks: for each text anthem accepts, parse(print(t)) == t and print is a fixpoint; non-trivial = distinct printed texts (hashed to 4096 buckets)");
+        run.set_rule("(i) every term of T_0..T_2 and depth-3 combinations over a 4-leaf alphabet (fully parenthesised by the generator, so in the image of the parser after one parse), every rule of C01's alphabets, programs of several rules, every head kind, empty bodies, #false heads; (ii) every string of <= 4 (thorough 7) tokens over a 15-token term alphabet and a 16-token rule alphabet, joined with and without blanks: for each text anthem accepts, parse(print(t)) == t and print is a fixpoint; non-trivial = distinct printed texts (hashed to 4096 buckets)");
     } else {
-        run.set_rule("(i) every formula of families A-G, every integer/general/symbolic term shape, annotated formulas with every role x direction x name, user-guide entries of every kind, theories/specifications/user guides of several entries; (ii) every string of <= 4 (thorough 5) tokens over a 24-token formula alphabet; (iii) the output of tau-star, natural, mu, gamma, completion on C01's rules and of the three portfolios on C07's formulas: for each text anthem accepts, parse(print(t)) == t and print is a fixpoint; non-trivial = distinct printed texts (hashed to 4096 buckets)");
+        run.set_rule("(i) every formula of families A-G, every integer/general/symbolic term shape, annotated formulas with every role x direction x name, user-guide entries of every kind, theories/specifications/user guides of several entries; (ii) every string of <= 4 (thorough 6) tokens over a 24-token formula alphabet; (iii) the output of tau-star, natural, mu, gamma, completion on C01's rules and of the three portfolios on C07's formulas: for each text anthem accepts, parse(print(t)) == t and print is a fixpoint; non-trivial = distinct printed texts (hashed to 4096 buckets)");
     }
     let lv = leaves(false);
     if mode == Mode::C14 {
@@ -185,17 +186,15 @@ pub fn run(mode: Mode, run: &Run) {
         });
         // (ii) token strings
         let ta = ["X", "1", "-1", "-", "+", "*", "/", "\\", "..", "(", ")", "a", "#inf", "0", "Y"];
-        let ts = token_strings(&ta, if quick { 4 } else { 5 }, &["", " "]);
-        run.set_extra("term_token_strings", json!(ts.len()));
-        ts.par_iter().for_each(|t| {
+        let n = for_each_token_string(&ta, if quick { 4 } else { 7 }, &["", " "], |t| {
             round_trip::<asp::Term>(run, "term", t);
         });
+        run.set_extra("term_token_strings", json!(n));
         let ra = ["p", "q(X)", ":-", ",", ".", "not", "{", "}", "#false", "X", "=", "<", "1", "-", ";", "p(-1)"];
-        let rs = token_strings(&ra, if quick { 4 } else { 5 }, &[" "]);
-        run.set_extra("rule_token_strings", json!(rs.len()));
-        rs.par_iter().for_each(|t| {
+        let n = for_each_token_string(&ra, if quick { 4 } else { 7 }, &[" "], |t| {
             round_trip::<asp::Program>(run, "program", t);
         });
+        run.set_extra("rule_token_strings", json!(n));
         return;
     }
     // ---------------------------------------------------------------- C15
@@ -256,11 +255,10 @@ pub fn run(mode: Mode, run: &Run) {
     });
     // (ii) token strings
     let fa = ["forall", "exists", "X", "X$i", "Y$", "p", "q(X)", "not", "and", "or", "->", "<-", "<->", "=", "<", "1", "-1", "-", "+", "(", ")", "#true", "a", "a$i"];
-    let fs = token_strings(&fa, if quick { 4 } else { 5 }, &[" "]);
-    run.set_extra("formula_token_strings", json!(fs.len()));
-    fs.par_iter().for_each(|t| {
+    let n = for_each_token_string(&fa, if quick { 4 } else { 6 }, &[" "], |t| {
         round_trip::<fol::Formula>(run, "formula", t);
     });
+    run.set_extra("formula_token_strings", json!(n));
     // (iii) outputs of the translations and simplifications
     let rules = crate::c01::inputs(true);
     run.set_extra("translated_programs", json!(rules.len()));
